@@ -186,3 +186,189 @@ def use_multiplicity(fn_node, name):
     for s in fn_node.body:
         visit(s, 0)
     return uses
+
+
+# ------------------------------------------------------------------ DEF-USE integrity: reads of possibly-unassigned locals
+def possibly_undefined(fn_node, module_names=None):
+    """[(Name node, name)] local names that may be read before any assignment on some path (must-assigned forward analysis over the
+    structured AST). Loop bodies may run zero times; except handlers start from the state before the try; comprehension variables are
+    scoped to the comprehension; nested functions/lambdas are skipped (their free variables are resolved at call time)."""
+    a = fn_node.args
+    params = {x.arg for x in a.posonlyargs + a.args + a.kwonlyargs}
+    if a.vararg:
+        params.add(a.vararg.arg)
+    if a.kwarg:
+        params.add(a.kwarg.arg)
+    assigned_somewhere = set()
+    globals_ = set()
+    for n in ast.walk(fn_node):
+        if isinstance(n, (ast.Global, ast.Nonlocal)):
+            globals_ |= set(n.names)
+
+    def targets(t, out):
+        if isinstance(t, ast.Name):
+            out.add(t.id)
+        elif isinstance(t, (ast.Tuple, ast.List)):
+            for e in t.elts:
+                targets(e.value if isinstance(e, ast.Starred) else e, out)
+
+    def own_nodes(node):
+        todo = list(ast.iter_child_nodes(node))
+        while todo:
+            n = todo.pop()
+            if isinstance(n, (ast.FunctionDef, ast.AsyncFunctionDef, ast.Lambda, ast.ClassDef)):
+                if isinstance(n, (ast.FunctionDef, ast.AsyncFunctionDef, ast.ClassDef)):
+                    yield n
+                continue
+            yield n
+            todo.extend(ast.iter_child_nodes(n))
+    for n in own_nodes(fn_node):
+        if isinstance(n, ast.Assign):
+            for t in n.targets:
+                targets(t, assigned_somewhere)
+        elif isinstance(n, (ast.AugAssign, ast.AnnAssign)):
+            targets(n.target, assigned_somewhere)
+        elif isinstance(n, (ast.For, ast.AsyncFor)):
+            targets(n.target, assigned_somewhere)
+        elif isinstance(n, (ast.With, ast.AsyncWith)):
+            for i in n.items:
+                if i.optional_vars is not None:
+                    targets(i.optional_vars, assigned_somewhere)
+        elif isinstance(n, ast.ExceptHandler) and n.name:
+            assigned_somewhere.add(n.name)
+        elif isinstance(n, (ast.FunctionDef, ast.AsyncFunctionDef, ast.ClassDef)):
+            assigned_somewhere.add(n.name)
+        elif isinstance(n, ast.NamedExpr):
+            targets(n.target, assigned_somewhere)
+        elif isinstance(n, (ast.Import, ast.ImportFrom)):
+            for al in n.names:
+                assigned_somewhere.add((al.asname or al.name).split('.')[0])
+    locals_ = (assigned_somewhere - globals_) - params
+    reports = []
+
+    import builtins as _b
+    known_globals = None if module_names is None else (set(module_names) | set(dir(_b)) | params | globals_)
+
+    def reads(e, defined, bound=frozenset()):
+        """report Name loads of locals not in defined; handles comprehension scopes."""
+        if e is None:
+            return
+        if isinstance(e, (ast.Lambda, ast.FunctionDef, ast.AsyncFunctionDef)):
+            return
+        if isinstance(e, ast.Name):
+            if isinstance(e.ctx, ast.Load) and e.id in locals_ and e.id not in defined and e.id not in bound:
+                reports.append((e, e.id))
+            elif isinstance(e.ctx, ast.Load) and known_globals is not None and e.id not in locals_ and e.id not in bound and e.id not in known_globals:
+                reports.append((e, e.id))      # neither a local, nor a parameter, nor a module-level name, nor a builtin
+            return
+        if isinstance(e, (ast.ListComp, ast.SetComp, ast.GeneratorExp, ast.DictComp)):
+            b = set(bound)
+            for g in e.generators:
+                reads(g.iter, defined, frozenset(b))
+                t = set()
+                targets(g.target, t)
+                b |= t
+                for c in g.ifs:
+                    reads(c, defined, frozenset(b))
+            for x in ([e.key, e.value] if isinstance(e, ast.DictComp) else [e.elt]):
+                reads(x, defined, frozenset(b))
+            return
+        if isinstance(e, ast.NamedExpr):
+            reads(e.value, defined, bound)
+            return
+        for c in ast.iter_child_nodes(e):
+            reads(c, defined, bound)
+
+    def block(stmts, defined):
+        """returns the must-defined set after the block, or None if the block never falls through"""
+        for s in stmts:
+            if defined is None:
+                return None
+            defined = stmt(s, defined)
+        return defined
+
+    def stmt(s, d):
+        if isinstance(s, ast.Assign):
+            reads(s.value, d)
+            for t in s.targets:
+                if not isinstance(t, (ast.Name, ast.Tuple, ast.List)):
+                    reads(t, d)
+            nd = set(d)
+            for t in s.targets:
+                targets(t, nd)
+            return nd
+        if isinstance(s, ast.AugAssign):
+            reads(s.value, d)
+            if isinstance(s.target, ast.Name):
+                if s.target.id in locals_ and s.target.id not in d:
+                    reports.append((s.target, s.target.id))
+                return set(d) | {s.target.id}
+            reads(s.target, d)
+            return d
+        if isinstance(s, ast.AnnAssign):
+            reads(s.value, d)
+            nd = set(d)
+            if s.value is not None:
+                targets(s.target, nd)
+            return nd
+        if isinstance(s, (ast.Expr, ast.Return, ast.Raise, ast.Assert, ast.Delete)):
+            for c in ast.iter_child_nodes(s):
+                reads(c, d)
+            return None if isinstance(s, (ast.Return, ast.Raise)) else d
+        if isinstance(s, ast.If):
+            reads(s.test, d)
+            a_ = block(s.body, set(d))
+            b_ = block(s.orelse, set(d))
+            if a_ is None:
+                return b_
+            if b_ is None:
+                return a_
+            return a_ & b_
+        if isinstance(s, (ast.For, ast.AsyncFor)):
+            reads(s.iter, d)
+            inner = set(d)
+            targets(s.target, inner)
+            block(s.body, inner)
+            return block(s.orelse, set(d)) if s.orelse else d
+        if isinstance(s, ast.While):
+            reads(s.test, d)
+            block(s.body, set(d))
+            infinite = isinstance(s.test, ast.Constant) and s.test.value is True
+            return None if infinite and not any(isinstance(x, ast.Break) for x in ast.walk(s)) else d
+        if isinstance(s, ast.Try):
+            body = block(s.body, set(d))
+            outs = []
+            if body is not None:
+                outs.append(block(s.orelse, set(body)) if s.orelse else body)
+            for h in s.handlers:
+                hd = set(d)
+                if h.name:
+                    hd.add(h.name)
+                outs.append(block(h.body, hd))
+            live = [o for o in outs if o is not None]
+            res = set.intersection(*live) if live else None
+            if s.finalbody:
+                res = block(s.finalbody, res if res is not None else set(d))
+            return res
+        if isinstance(s, (ast.With, ast.AsyncWith)):
+            nd = set(d)
+            for i in s.items:
+                reads(i.context_expr, d)
+                if i.optional_vars is not None:
+                    targets(i.optional_vars, nd)
+            return block(s.body, nd)
+        if isinstance(s, (ast.FunctionDef, ast.AsyncFunctionDef, ast.ClassDef)):
+            return set(d) | {s.name}
+        if isinstance(s, (ast.Import, ast.ImportFrom)):
+            return set(d) | {(al.asname or al.name).split('.')[0] for al in s.names}
+        if isinstance(s, (ast.Break, ast.Continue)):
+            return None
+        return d
+    block(fn_node.body, set())
+    seen, out = set(), []
+    for n, nm in reports:
+        k = (n.lineno, n.col_offset, nm)
+        if k not in seen:
+            seen.add(k)
+            out.append((n, nm))
+    return out
